@@ -852,6 +852,8 @@ def r7(ctx, R):
     for c in calls_in(f.node):
         if isinstance(c.func, ast.Attribute) and c.func.attr == "append" and c.args and isinstance(c.args[0], ast.List) and c.args[0].elts and unparse(c.args[0].elts[0]) == f"len({stack})":
             group = unparse(c.func.value)
+        elif isinstance(c.func, ast.Attribute) and c.func.attr == "append" and c.args and isinstance(c.args[0], ast.Call) and isinstance(c.args[0].func, ast.Name) and c.args[0].func.id[:1].isupper() and c.args[0].args and unparse(c.args[0].args[0]) == f"len({stack})":
+            group = unparse(c.func.value)  # a record (dataclass) per #elif group instead of a two-element list
     if not stack or not group:
         raise AnalysisError("preprocess_file: conditional stack / #elif group list not identified")
     # arms
